@@ -88,6 +88,30 @@ CHECKS = {
 }
 NOT_YET = {}
 
+# spaces added after the seeded-change rounds (appended to the level text)
+ADDED = {
+ "C01": "Added: an OPT record with every option code 0..=65535 x 6 payloads x 3 placements, a record of every TYPE code 0..=65535 x 6 classes x 20 generic RDATA bodies, many-step names (0..=130 inline labels, pointer chains of every length up to 700 and 2000/4000/8000 hops) and the reference encodings of the full size sweep; one free byte over all 256 values in every type's RDATA and every byte value at every position of the short seed messages.",
+ "C02": "Added: the full size sweep (every character-string length 0..=255, tail length 0..=600 plus a ladder to 5000, label count 1..=127, label length 1..=63, total name length 3..=255, list sizes 1..=70 and beyond, 2..400 distinct names each used twice) for every variable-size field of every schema, and many-entry / size-ladder packets.",
+ "C03": "Added: the full size sweep and packets with 2..400 distinct repeated names, long-name and deep-chain families, letter-case variants.",
+ "C04": "Added: the full size sweep through the non-quadratic writer set, and records obtained through the other constructors (TXT::try_from(&str) for every length 0..=1400 / 0..=700 UTF-8 characters, TXT from attribute maps of 0..=60 entries, TXT of 0..=80 strings) framed before a following record.",
+ "C05": "Added: owner / question / RDATA names that need many decoding steps (0..=130 inline labels with and without a closing pointer, every label length before a pointer, pointer chains of every length up to 700 (2100) and 2000/4000/8000), and the plain and compressed reference encodings of the full size sweep; acceptance is required exactly when the walker succeeds.",
+ "C06": "Added: pointer chains of every length 1..=2100 (8100 thorough), chains ending at 126/127-label names, hops that each add a label, 0..=130 inline labels, every pair of label lengths before a pointer, decoded through the hook and inside messages (owner, question, every RDATA name of every accepted record).",
+ "C07": "Added: the full size sweep incl. packets with 2..400 distinct names each repeated (more distinct suffixes than any table cap).",
+ "C08": "Added: the header through writers that accept 1..13 bytes per call and into fixed buffers of every capacity 0..11.",
+ "C09": "Added: many and mid-size options (0..=600-byte values, small-then-large orders).",
+ "C10": "Added: every value of every 8/16-bit field, walking bits of wider fields, and the full size sweep of every variable-size field (every string length 0..=255, tail length 0..=600, label count, label length, name length, list sizes).",
+ "C11": "Added: every accepted input is also re-emitted into a fixed datagram buffer and a recycled vector (bytes and final position must equal the vector-returning call); C01's R5/R6/R7 spaces; the full size sweep; two-OPT messages.",
+ "C12": "Added: multi-byte characters at every byte offset of rendered labels and strings, C01's R5/R6/R7 spaces.",
+ "C13": "Added: transition read-back, long repetitive histories, and 'odd and large' stores outside the BFS menu (owners with labels of 256..300 bytes, binary labels, a dot inside a label, the root, SRV at one- and two-label owners, the DNS-SD meta-query name; 10..300 hosts x (A, SRV, PTR)) x every question over their names.",
+ "C14": "Added: store kinds with odd-shaped and with 120 authoritative records, queries and responses for every name of those worlds (incl. _services._dns-sd._udp.local), a per-datagram watchdog.",
+ "C15": "Added: every Unicode scalar value through escape/unescape, larger instances, foreign additional records, an IPv4-mapped address.",
+ "C16": "Added: all ordered pairs over ~300 InstanceInformation values differing in name spelling (case, dots, backslash escapes, spaces, non-ASCII), ports, addresses and attributes; the full size sweep; constructible-but-never-parsed values.",
+ "C17": "Added: wire-suffix look-alikes for every label length 1..=61 (a name whose first label ends with the length byte and bytes of the parent's first label), letter-case pairs, try_from conversions.",
+ "C18": "Added: records parsed from the wire for every TYPE code 0..=65535 x 7 CLASS fields x ~20 RDATA bodies: an accepted record reports the wire TYPE and CLASS and matches exactly its own type.",
+ "C19": "Added: every byte length 0..=800, 5..300 attribute strings with duplicate and bare keys (in memory, over the wire, and through long_attributes), letter-case keys.",
+ "C20": "Added: every transition observed after 0..=3 further ticks, long TTLs, long repetitive histories, and stores of 1..500 records under one name bucket with the authoritative record first / in the middle / last.",
+}
+
 def main():
     props = [json.loads(l) for l in open(os.path.join(ROOT, "properties.jsonl"))]
     hooks_commits = subprocess.run(["git", "-C", "/repo", "log", "--format=%H %s"], capture_output=True, text=True).stdout.splitlines()
@@ -98,6 +122,8 @@ def main():
         pid = p["id"]
         if pid in CHECKS:
             tech, text, note, ref = CHECKS[pid]
+            if pid in ADDED:
+                text = text + " " + ADDED[pid]
             checks.append({
                 "property_id": pid,
                 "quick_cmd": f"./check {pid} quick",
